@@ -80,8 +80,7 @@ def r2(ctx, prog, cfgname):
     gh = [q for p, q, e, pol in rl.edges_with_fact(g, other_seg)]
     ok = bool(gh) and any(True for _ in g.calls(("_mi_segment_page_start", "mi_page_start")))
     for q in gh:
-        rets_ = [g.cfg.elem_at(p) for p in g.cfg.reach([q]) if g.cfg.elem_at(p) is not None and g.nodes[g.cfg.elem_at(p)]["k"] == "ReturnStmt"]
-        ok = ok and bool(rets_) and all(g.cv(g.nodes[r].get("val", -1)) == 0 for r in rets_)
+        ok = ok and rl.returns_only(g, q, 0)
     ctx.check(R, ok, g.where(), "[%s] same page = same segment and inside the page area" % cfgname, key="C17.R2:same_page")
 
 
